@@ -372,6 +372,7 @@ func (c *wsConn) SubscribeResource(rid string, cb func(data *rpc.Resources, err 
 				return
 			}
 
+			sub.confirmed++
 			cb(sub.GetRPCResources(false), nil)
 			sub.ReleaseRPCResources()
 		})
@@ -562,6 +563,7 @@ func (c *wsConn) handleResourceResult(refRID string, cb func(result interface{},
 		sub.OnReady(func() {
 			// Respond with success even if subscription contains errors,
 			// as the call in itself succeeded.
+			sub.confirmed++
 			cb(&rpc.CallResourceResult{
 				RID:       sub.RID(),
 				Resources: sub.GetRPCResources(false),
@@ -629,11 +631,14 @@ func (c *wsConn) UnsubscribeByRID(rid string, count int) bool {
 		return false
 	}
 
+	// Only subscriptions the client has been told about can be unsubscribed,
+	// not those of subscribe, get or call requests still waiting for an answer.
 	sub, ok := c.subs[rid]
-	if !ok || sub.direct < count {
+	if !ok || sub.confirmed < count {
 		return false
 	}
 
+	sub.confirmed -= count
 	c.removeCount(sub, true, false, count, true)
 	return true
 }
